@@ -380,12 +380,10 @@ impl CellBuffer {
         w: f32,
         h: f32,
     ) -> Node<MSG> {
-        let fragments_scaled: Vec<FragmentSpan> = fragments
-            .into_iter()
-            .map(|frag| frag.scale(settings.scale))
-            .collect();
+        // which fragment encloses which is decided in cell units, so that it
+        // does not depend on the scale; the fragments are scaled afterwards
         let fragment_nodes: Vec<Node<MSG>> =
-            FragmentTree::fragments_to_node(fragments_scaled);
+            FragmentTree::fragments_to_node(fragments, settings.scale);
 
         let mut children = vec![];
         if settings.include_styles {
